@@ -38,6 +38,7 @@ fn main() {
         ["gen", "eval"] => eval::gen(&args),
         ["replay", "eval"] => eval::replay(&args),
         ["record", "eval"] => eval::record(&args),
+        ["replay", "history"] => eval::replay_history(&args),
         ["replay", "trunc"] => strategy::replay_trunc(&args),
         ["replay", "dist"] => strategy::replay_dist(&args),
         ["replay", "import"] => strategy::replay_import(&args),
